@@ -251,3 +251,138 @@
     }
 @@ ConfigActor::handle@Handler<ConfigCmd> loop 2
     invariant *self == *old(self), it2.seq().unref() == items@,
+@@ Subscriber::add_subscribe t8 1
+@@ Subscriber::add_subscribe foriter 1 it
+@@ Subscriber::add_subscribe foriter 2 it2
+@@ Subscriber::add_subscribe foriter 3 it3
+@@ Subscriber::add_subscribe spec
+    // C10: the connection is recorded as a subscriber of exactly the listed keys, nobody else's subscription changes
+    ensures forall|k: ConfigKey, c: Arc<String>| #[trigger] final(self).subs(k, c) <==> (old(self).subs(k, c) || (c == client_id && listed(items@, k))),
+@@ Subscriber::add_subscribe entry
+    broadcast use vstd::std_specs::hash::group_hash_axioms;
+    broadcast use axiom_config_key_model;
+    broadcast use group_std_extra;
+    let ghost s0 = *self;
+    let ghost its = items@;
+@@ Subscriber::add_subscribe loop 1
+    invariant it.seq().unref() == its, items@ == its,
+        self.client_keys == s0.client_keys,
+        forall|k: ConfigKey, c: Arc<String>| #[trigger] self.subs(k, c) <==> (s0.subs(k, c) || (c == client_id && listed(its.take(it.index@), k))),
+        it.index@ == its.len() ==> forall|k: ConfigKey, c: Arc<String>| #[trigger] self.subs(k, c) <==> (s0.subs(k, c) || (c == client_id && listed(its, k))),
+@@ Subscriber::add_subscribe loop 1 body_entry
+    broadcast use vstd::std_specs::hash::group_hash_axioms;
+    broadcast use axiom_config_key_model;
+    broadcast use group_std_extra;
+    let ghost s1 = *self;
+    let ghost n = it.index@;
+    proof {
+        assert(*item == its[n]);
+        assert forall|k: ConfigKey| listed(its.take(n + 1), k) <==> (listed(its.take(n), k) || k == its[n].key) by {
+            if listed(its.take(n + 1), k) { let i = choose|i: int| 0 <= i < n + 1 && (#[trigger] its.take(n + 1)[i]).key == k; if i < n { assert(its.take(n)[i].key == k); } }
+            if listed(its.take(n), k) { let i = choose|i: int| 0 <= i < n && (#[trigger] its.take(n)[i]).key == k; assert(its.take(n + 1)[i].key == k); }
+            assert(its.take(n + 1)[n] == its[n]);
+        }
+    }
+@@ Subscriber::add_subscribe after_loop 1
+    proof { assert(its.take(its.len() as int) =~= its); }
+    let ghost sl = self.listener;
+    let ghost s2 = *self;
+@@ Subscriber::add_subscribe loop 1 body_exit
+    proof {
+        let kk = its[n].key;
+        assert forall|k: ConfigKey, c: Arc<String>| #[trigger] self.subs(k, c) <==> (s1.subs(k, c) || (c == client_id && k == kk)) by {
+            if k == kk { } else { assert(self.listener@.contains_key(k) == s1.listener@.contains_key(k)); }
+        }
+        if n + 1 == its.len() { assert(its.take(n + 1) =~= its); }
+    }
+@@ Subscriber::add_subscribe loop 2
+    invariant self.listener == sl
+@@ Subscriber::add_subscribe loop 3
+    invariant self.listener == sl
+@@ Subscriber::add_subscribe exit
+    proof {
+        assert(self.listener == sl);
+        assert forall|k: ConfigKey, c: Arc<String>| #[trigger] self.subs(k, c) <==> (s0.subs(k, c) || (c == client_id && listed(its, k))) by {
+            assert(self.subs(k, c) == s2.subs(k, c));
+        }
+    }
+@@ Subscriber::remove_subscribe t8 1
+@@ Subscriber::remove_subscribe t8 2
+@@ Subscriber::remove_subscribe foriter 1 it
+@@ Subscriber::remove_subscribe foriter 2 it2
+@@ Subscriber::remove_subscribe foriter 3 it3
+@@ Subscriber::remove_subscribe spec
+    // C10: the connection stops being a subscriber of exactly the listed keys; nobody else's subscription changes
+    ensures forall|k: ConfigKey, c: Arc<String>| #[trigger] final(self).subs(k, c) <==> (old(self).subs(k, c) && !(c == client_id && listed(items@, k))),
+@@ Subscriber::remove_subscribe entry
+    broadcast use vstd::std_specs::hash::group_hash_axioms;
+    broadcast use axiom_config_key_model;
+    broadcast use group_std_extra;
+    let ghost s0 = *self;
+    let ghost its = items@;
+    let ghost cid = client_id;
+@@ Subscriber::remove_subscribe loop 1
+    invariant it.seq().unref() == its, items@ == its, cid == client_id,
+        self.client_keys == s0.client_keys,
+        forall|k: ConfigKey, c: Arc<String>| #[trigger] self.subs(k, c) <==> (s0.subs(k, c) && !(c == cid && listed(its.take(it.index@), k))),
+        forall|j: int, c: Arc<String>| 0 <= j < remove_keys@.len() ==> !#[trigger] self.subs(remove_keys@[j], c),
+@@ Subscriber::remove_subscribe loop 1 body_entry
+    broadcast use vstd::std_specs::hash::group_hash_axioms;
+    broadcast use axiom_config_key_model;
+    broadcast use group_std_extra;
+    let ghost s1 = *self;
+    let ghost n = it.index@;
+    let ghost rk1 = remove_keys@;
+    proof {
+        assert(*item == its[n]);
+        assert forall|k: ConfigKey| listed(its.take(n + 1), k) <==> (listed(its.take(n), k) || k == its[n].key) by {
+            if listed(its.take(n + 1), k) { let i = choose|i: int| 0 <= i < n + 1 && (#[trigger] its.take(n + 1)[i]).key == k; if i < n { assert(its.take(n)[i].key == k); } }
+            if listed(its.take(n), k) { let i = choose|i: int| 0 <= i < n && (#[trigger] its.take(n)[i]).key == k; assert(its.take(n + 1)[i].key == k); }
+            assert(its.take(n + 1)[n] == its[n]);
+        }
+    }
+@@ Subscriber::remove_subscribe loop 1 body_exit
+    proof {
+        let kk = its[n].key;
+        assert forall|k: ConfigKey, c: Arc<String>| #[trigger] self.subs(k, c) <==> (s1.subs(k, c) && !(c == cid && k == kk)) by {
+            if k == kk { } else { assert(self.listener@.contains_key(k) == s1.listener@.contains_key(k)); }
+        }
+        assert forall|j: int, c: Arc<String>| 0 <= j < remove_keys@.len() implies !#[trigger] self.subs(remove_keys@[j], c) by {
+            if j < rk1.len() { assert(remove_keys@[j] == rk1[j]); assert(!s1.subs(rk1[j], c)); }
+            else { assert(remove_keys@[j] == kk); assert(self.listener@[kk]@.len() == 0); }
+        }
+    }
+@@ Subscriber::remove_subscribe after_loop 1
+    proof { assert(its.take(its.len() as int) =~= its); }
+    let ghost s2 = *self;
+    let ghost rks = remove_keys@;
+@@ Subscriber::remove_subscribe loop 2
+    invariant it2.seq().unref() == rks, remove_keys@ == rks, self.client_keys == s2.client_keys,
+        forall|j: int, c: Arc<String>| 0 <= j < rks.len() ==> !#[trigger] s2.subs(rks[j], c),
+        forall|k: ConfigKey, c: Arc<String>| #[trigger] self.subs(k, c) <==> s2.subs(k, c),
+@@ Subscriber::remove_subscribe loop 2 body_entry
+    broadcast use vstd::std_specs::hash::group_hash_axioms;
+    broadcast use axiom_config_key_model;
+    let ghost s3 = *self;
+    let ghost n2 = it2.index@;
+    proof { assert(*key == rks[n2]); }
+@@ Subscriber::remove_subscribe loop 2 body_exit
+    proof {
+        assert forall|k: ConfigKey, c: Arc<String>| #[trigger] self.subs(k, c) <==> s2.subs(k, c) by {
+            assert(s3.subs(k, c) == s2.subs(k, c));
+            if k == rks[n2] { assert(!s2.subs(rks[n2], c)); } else { assert(self.listener@.contains_key(k) == s3.listener@.contains_key(k)); }
+        }
+    }
+@@ Subscriber::remove_subscribe after_loop 2
+    let ghost sl = self.listener;
+    let ghost s4 = *self;
+@@ Subscriber::remove_subscribe loop 3
+    invariant self.listener == sl
+@@ Subscriber::remove_subscribe exit
+    proof {
+        assert(self.listener == sl);
+        assert forall|k: ConfigKey, c: Arc<String>| #[trigger] self.subs(k, c) <==> (s0.subs(k, c) && !(c == cid && listed(its, k))) by {
+            assert(self.subs(k, c) == s4.subs(k, c));
+            assert(s4.subs(k, c) == s2.subs(k, c));
+        }
+    }
